@@ -339,6 +339,10 @@ variable (X : Ctx) (σ : State)
 @[simp] theorem evalE_un (op : UnOp) (e : Expr) : evalE X σ (.un op e) = (evalE X σ e).bind (evalUn op) := by simp [evalE]
 @[simp] theorem evalE_bin (op : BinOp) (a b : Expr) :
     evalE X σ (.bin op a b) = (evalE X σ a).bind fun va => (evalE X σ b).bind fun vb => evalBin op va vb := by simp [evalE]
+theorem andK_ok_bool (a b : Bool) : andK (.ok (.bool b)) (.bool a) = .ok (.bool (a && b)) := by
+  cases a <;> cases b <;> rfl
+theorem orK_ok_bool (a b : Bool) : orK (.ok (.bool b)) (.bool a) = .ok (.bool (a || b)) := by
+  cases a <;> cases b <;> rfl
 @[simp] theorem evalE_and (a b : Expr) : evalE X σ (.and a b) = (evalE X σ a).bind (andK (evalE X σ b)) := by
   simp only [evalE]; congr
 @[simp] theorem evalE_or (a b : Expr) : evalE X σ (.or a b) = (evalE X σ a).bind (orK (evalE X σ b)) := by
